@@ -1161,3 +1161,494 @@ end
 end shapeTree
 
 end PhpVerif.Fmt
+
+/-! ### what the formatter writes carries only trivia of its own making -/
+namespace PhpVerif.Fmt
+open PhpVerif
+
+/-- a free-floating entry the formatter makes itself (blank / newline / indentation, `<?php `) or keeps on
+    purpose (the halt-compiler tail) -/
+def OwnFF (c : FCfg) (h : Nat) (x : FF) : Prop := x.id = c.tWs ∨ x.id = c.tOpenTag ∨ x.id = h
+
+def OwnTok (c : FCfg) (h : Nat) (t : Tok) : Prop := ∀ x ∈ t.ff, OwnFF c h x
+
+/-- the pending list holds only entries of the formatter's own -/
+def StOwn (c : FCfg) (h : Nat) (s : FSt) : Prop := ∀ x ∈ s.ff, OwnFF c h x
+
+mutual
+/-- every `addFreeFloating` of the instructions queues a T_WHITESPACE entry; every halt filter keeps id h -/
+def wsOKI (c : FCfg) (h : Nat) : FI → Bool
+  | .ws id _ => id == c.tWs
+  | .each _ pre post => pre.all (fun w => w.1 == c.tWs) && post.all (fun w => w.1 == c.tWs)
+  | .sepLoop _ _ pre _ _ post => pre.all (fun w => w.1 == c.tWs) && post.all (fun w => w.1 == c.tWs)
+  | .haltTail _ id => id == h
+  | .ite _ a b => wsOKIs c h a && wsOKIs c h b
+  | _ => true
+def wsOKIs (c : FCfg) (h : Nat) : List FI → Bool
+  | [] => true
+  | i :: r => wsOKI c h i && wsOKIs c h r
+end
+
+theorem StOwn.addWs {c : FCfg} {h : Nat} {s : FSt} (hs : StOwn c h s) (lit : List Nat) : StOwn c h (s.addWs c.tWs lit) := by
+  intro x hx
+  simp only [FSt.addWs, List.mem_append, List.mem_singleton] at hx
+  cases hx with
+  | inl a => exact hs x a
+  | inr a => subst a; exact Or.inl rfl
+
+theorem StOwn.addWss {c : FCfg} {h : Nat} : ∀ (l : List Ws) {s : FSt}, StOwn c h s → l.all (fun w => w.1 == c.tWs) = true →
+    StOwn c h (s.addWss l)
+  | [], s, hs, _ => by simpa [FSt.addWss] using hs
+  | w :: r, s, hs, hl => by
+    simp only [List.all_cons, Bool.and_eq_true, beq_iff_eq] at hl
+    simp only [FSt.addWss, List.foldl_cons]
+    have : StOwn c h (s.addWs w.1 w.2) := by rw [hl.1]; exact hs.addWs w.2
+    exact StOwn.addWss r this hl.2
+
+theorem StOwn.addIndent {c : FCfg} {h : Nat} {s : FSt} (hs : StOwn c h s) : StOwn c h (s.addIndent c) := by
+  unfold FSt.addIndent
+  split
+  · exact hs
+  · intro x hx
+    simp only [List.mem_append, List.mem_singleton] at hx
+    cases hx with
+    | inl a => exact hs x a
+    | inr a => subst a; exact Or.inl rfl
+
+theorem getFF_own {c : FCfg} {h : Nat} {s : FSt} (hs : StOwn c h s) :
+    (∀ x ∈ (s.getFF c).1, OwnFF c h x) ∧ StOwn c h (s.getFF c).2 := by
+  constructor
+  · intro x hx
+    simp only [FSt.getFF] at hx
+    split at hx
+    · cases List.mem_cons.mp hx with
+      | inl a => subst a; exact Or.inr (Or.inl rfl)
+      | inr a => exact hs x a
+    · exact hs x hx
+  · intro x hx; simp [FSt.getFF] at hx
+
+theorem newToken_own {c : FCfg} {h : Nat} {s : FSt} (hs : StOwn c h s) (id : Nat) (val : Bytes) :
+    OwnTok c h (s.newToken c id val).1 ∧ StOwn c h (s.newToken c id val).2 := by
+  have := getFF_own (h := h) hs
+  exact ⟨this.1, this.2⟩
+
+theorem haltFF_own (c : FCfg) (h : Nat) (l : List FF) : ∀ x ∈ haltFF h l, OwnFF c h x := by
+  intro x hx
+  simp only [haltFF, List.mem_map, List.mem_filter, beq_iff_eq] at hx
+  obtain ⟨y, ⟨_, hy⟩, rfl⟩ := hx
+  exact Or.inr (Or.inr hy)
+
+/-- a child formatter that keeps the pending list clean and whose result satisfies P -/
+def FnOwn (c : FCfg) (h : Nat) (P : Tree → Prop) (fn : FSt → FRes) : Prop :=
+  ∀ s t' s', StOwn c h s → fn s = some (t', s') → StOwn c h s' ∧ P t'
+
+theorem acceptAll_own {c : FCfg} {h : Nat} {P : Tree → Prop} (pre post : List Ws) (hpre : pre.all (fun w => w.1 == c.tWs) = true)
+    (hpost : post.all (fun w => w.1 == c.tWs) = true) : ∀ (fns : List KFn) (s : FSt) (out : List Tree) (s' : FSt),
+    (∀ kf ∈ fns, FnOwn c h P kf.2) → StOwn c h s → acceptAll pre post fns s = some (out, s') →
+    StOwn c h s' ∧ ∀ t ∈ out, P t
+  | [], s, out, s', _, hs, hh => by simp [acceptAll] at hh; obtain ⟨h1, h2⟩ := hh; subst h1; subst h2; exact ⟨hs, by simp⟩
+  | (k, fn) :: r, s, out, s', hf, hs, hh => by
+    simp only [acceptAll] at hh
+    split at hh
+    · cases hh
+    · rename_i t1 s1 h1
+      split at hh
+      · cases hh
+      · rename_i ts1 s2 h2
+        cases hh
+        have a1 := hf (k, fn) (List.mem_cons_self) _ _ _ (hs.addWss pre hpre) h1
+        have ih := acceptAll_own pre post hpre hpost r _ _ _ (fun x hx => hf x (List.mem_cons_of_mem _ hx)) (a1.1.addWss post hpost) h2
+        refine ⟨ih.1, ?_⟩
+        intro t ht
+        cases List.mem_cons.mp ht with
+        | inl e => subst e; exact a1.2
+        | inr e => exact ih.2 t e
+
+theorem sepAll_own {c : FCfg} {h : Nat} {P : Tree → Prop} (pre post : List Ws) (id : Nat) (lit : List Nat)
+    (hpre : pre.all (fun w => w.1 == c.tWs) = true) (hpost : post.all (fun w => w.1 == c.tWs) = true) :
+    ∀ (fns : List KFn) (s : FSt) (out : List Tree) (tks : List Tok) (s' : FSt),
+    (∀ kf ∈ fns, FnOwn c h P kf.2) → StOwn c h s → sepAll c pre id lit post fns s = some (out, tks, s') →
+    StOwn c h s' ∧ (∀ t ∈ tks, OwnTok c h t) ∧ ∀ t ∈ out, P t
+  | [], s, out, tks, s', _, hs, hh => by
+    simp [sepAll] at hh; obtain ⟨h1, h2, h3⟩ := hh; subst h1; subst h2; subst h3; exact ⟨hs, by simp, by simp⟩
+  | [(k, fn)], s, out, tks, s', hf, hs, hh => by
+    simp only [sepAll] at hh
+    split at hh
+    · cases hh
+    · rename_i t1 s1 h1
+      cases hh
+      have a1 := hf (k, fn) (List.mem_cons_self) _ _ _ hs h1
+      exact ⟨a1.1, by simp, by simpa using a1.2⟩
+  | (k, fn) :: kf2 :: r, s, out, tks, s', hf, hs, hh => by
+    simp only [sepAll] at hh
+    split at hh
+    · cases hh
+    · rename_i t1 s1 h1
+      have a1 := hf (k, fn) (List.mem_cons_self) _ _ _ hs h1
+      have a2 := newToken_own (h := h) (a1.1.addWss pre hpre) id (u8s lit)
+      split at hh
+      · cases hh
+      · rename_i ts1 tks1 s3 h2
+        cases hh
+        have ih := sepAll_own pre post id lit hpre hpost (kf2 :: r) _ _ _ _
+          (fun x hx => hf x (List.mem_cons_of_mem _ hx)) (a2.2.addWss post hpost) h2
+        refine ⟨ih.1, ?_, ?_⟩
+        · intro t ht
+          cases List.mem_cons.mp ht with
+          | inl e => subst e; exact a2.1
+          | inr e => exact ih.2.1 t e
+        · intro t ht
+          cases List.mem_cons.mp ht with
+          | inl e => subst e; exact a1.2
+          | inr e => exact ih.2.2 t e
+
+theorem stmtsAll_own {c : FCfg} {h : Nat} {P : Tree → Prop} (hnop : P (nopNode c)) : ∀ (fns : List KFn) (s : FSt) (out : List Tree) (s' : FSt),
+    (∀ kf ∈ fns, FnOwn c h P kf.2) → StOwn c h s → stmtsAll c fns s = some (out, s') → StOwn c h s' ∧ ∀ t ∈ out, P t
+  | [], s, out, s', _, hs, hh => by simp [stmtsAll] at hh; obtain ⟨h1, h2⟩ := hh; subst h1; subst h2; exact ⟨hs, by simp⟩
+  | (k, fn) :: r, s, out, s', hf, hs, hh => by
+    simp only [stmtsAll] at hh
+    split at hh
+    · split at hh
+      · cases hh
+      · rename_i t1 s1 h1
+        split at hh
+        · cases hh
+        · rename_i ts1 s2 h2
+          cases hh
+          have a1 := hf (k, fn) (List.mem_cons_self) _ _ _ hs h1
+          have ih := stmtsAll_own hnop r _ _ _ (fun x hx => hf x (List.mem_cons_of_mem _ hx)) a1.1 h2
+          refine ⟨ih.1, ?_⟩
+          intro t ht
+          simp only [List.mem_cons] at ht
+          rcases ht with e | e | e
+          · subst e; exact hnop
+          · subst e; exact a1.2
+          · exact ih.2 t e
+    · split at hh
+      · cases hh
+      · rename_i t1 s1 h1
+        split at hh
+        · cases hh
+        · rename_i ts1 s2 h2
+          cases hh
+          have a1 := hf (k, fn) (List.mem_cons_self) _ _ _ ((hs.addWs [10]).addIndent) h1
+          have ih := stmtsAll_own hnop r _ _ _ (fun x hx => hf x (List.mem_cons_of_mem _ hx)) a1.1 h2
+          refine ⟨ih.1, ?_⟩
+          intro t ht
+          cases List.mem_cons.mp ht with
+          | inl e => subst e; exact a1.2
+          | inr e => exact ih.2 t e
+
+end PhpVerif.Fmt
+
+namespace PhpVerif.Fmt
+open PhpVerif
+
+def WOwn (c : FCfg) (h : Nat) (w : List (Option (List Tok))) : Prop :=
+  ∀ f l, getOv w f = some l → ∀ t ∈ l, OwnTok c h t
+
+def KwP (P : Tree → Prop) (kw : List (Option (List Tree))) : Prop :=
+  ∀ f l, getOv kw f = some l → ∀ t ∈ l, P t
+
+theorem WOwn.set {c h w} (hw : WOwn c h w) (f : Nat) (l : List Tok) (hl : ∀ t ∈ l, OwnTok c h t) : WOwn c h (setOv w f l) := by
+  intro g l' hg
+  by_cases hfg : f = g
+  · subst hfg; rw [getOv_setOv_same] at hg; cases hg; exact hl
+  · rw [getOv_setOv_other _ _ _ _ hfg] at hg; exact hw g l' hg
+
+theorem KwP.set {P kw} (hw : KwP P kw) (f : Nat) (l : List Tree) (hl : ∀ t ∈ l, P t) : KwP P (setOv kw f l) := by
+  intro g l' hg
+  by_cases hfg : f = g
+  · subst hfg; rw [getOv_setOv_same] at hg; cases hg; exact hl
+  · rw [getOv_setOv_other _ _ _ _ hfg] at hg; exact hw g l' hg
+
+theorem keepTok_own {c : FCfg} {h : Nat} (t : Tok) (l : List FF) (hl : ∀ x ∈ l, OwnFF c h x) : OwnTok c h (keepTok t l) := hl
+
+/-- the state and both overlays hold only what the formatter made -/
+structure NOwn (c : FCfg) (h : Nat) (P : Tree → Prop) (n : NSt) : Prop where
+  st : StOwn c h n.st
+  w : WOwn c h n.w
+  kw : KwP P n.kw
+
+section ownExec
+variable (c : FCfg) (h : Nat) (P : Tree → Prop) (orig : List (List Tok)) (vals : List (Option Bytes)) (nn : List Bool)
+variable (fns : List (List KFn))
+variable (hfns : ∀ f, ∀ kf ∈ fieldAt fns f, FnOwn c h P kf.2) (hnop : P (nopNode c))
+include hfns hnop
+
+mutual
+theorem execI_own : ∀ (i : FI) (n n' : NSt), wsOKI c h i = true → execI c orig vals nn fns i n = some n' →
+    NOwn c h P n → NOwn c h P n'
+  | .newTok f id lit, n, n', _, hx, hi => by
+    simp only [execI] at hx; cases hx
+    have a := newToken_own (h := h) hi.st id (u8s lit)
+    exact ⟨a.2, hi.w.set f _ (by intro t ht; simp at ht; subst ht; exact a.1), hi.kw⟩
+  | .newTokVal f id g, n, n', _, hx, hi => by
+    simp only [execI] at hx; cases hx
+    have a := newToken_own (h := h) hi.st id (((vals[g]?).getD none).getD [])
+    exact ⟨a.2, hi.w.set f _ (by intro t ht; simp at ht; subst ht; exact a.1), hi.kw⟩
+  | .newTokReg f id r, n, n', _, hx, hi => by
+    simp only [execI] at hx; cases hx
+    have a := newToken_own (h := h) hi.st id (u8s (n.reg r))
+    exact ⟨a.2, hi.w.set f _ (by intro t ht; simp at ht; subst ht; exact a.1), hi.kw⟩
+  | .setFlag .., n, n', _, hx, hi => by simp only [execI] at hx; cases hx; exact ⟨hi.st, hi.w, hi.kw⟩
+  | .setReg .., n, n', _, hx, hi => by simp only [execI] at hx; cases hx; exact ⟨hi.st, hi.w, hi.kw⟩
+  | .clear f, n, n', _, hx, hi => by
+    simp only [execI] at hx; cases hx
+    exact ⟨hi.st, hi.w.set f _ (by simp), hi.kw⟩
+  | .ws id lit, n, n', hok, hx, hi => by
+    simp only [execI] at hx; cases hx
+    have : id = c.tWs := by simpa [wsOKI] using hok
+    subst this
+    exact ⟨hi.st.addWs lit, hi.w, hi.kw⟩
+  | .indent up, n, n', _, hx, hi => by
+    simp only [execI] at hx; cases hx; exact ⟨hi.st, hi.w, hi.kw⟩
+  | .setHtml, n, n', _, hx, hi => by
+    simp only [execI] at hx; cases hx; exact ⟨hi.st, hi.w, hi.kw⟩
+  | .addIndent, n, n', _, hx, hi => by
+    simp only [execI] at hx; cases hx; exact ⟨hi.st.addIndent, hi.w, hi.kw⟩
+  | .accept f, n, n', _, hx, hi => by
+    simp only [execI] at hx
+    split at hx
+    · rename_i k fn rest hf
+      split at hx
+      · cases hx
+      · rename_i t1 s1 h1
+        cases hx
+        have a := hfns f (k, fn) (by rw [hf]; exact List.mem_cons_self) _ _ _ hi.st h1
+        exact ⟨a.1, hi.w, hi.kw.set f _ (by intro t ht; simp at ht; subst ht; exact a.2)⟩
+    · cases hx
+  | .setFF f, n, n', _, hx, hi => by
+    simp only [execI] at hx
+    split at hx
+    · cases hx
+      have a := getFF_own (h := h) hi.st
+      exact ⟨a.2, hi.w.set f _ (by intro t ht; simp at ht; subst ht; exact keepTok_own _ _ a.1), hi.kw⟩
+    · cases hx
+  | .semi f, n, n', _, hx, hi => by
+    simp only [execI] at hx; cases hx
+    have a := newToken_own (h := h) hi.st 59 [59]
+    exact ⟨a.2, hi.w.set f _ (by intro t ht; simp at ht; subst ht; exact a.1), hi.kw⟩
+  | .fmtList g f sep, n, n', _, hx, hi => by
+    simp only [execI] at hx
+    split at hx
+    · cases hx
+    · rename_i ts tks s hsep
+      cases hx
+      have a := sepAll_own (h := h) (P := P) [] [(c.tWs, [32])] sep [sep] (by simp) (by simp) (fieldAt fns f) _ ts tks s
+        (hfns f) hi.st hsep
+      by_cases he : (fieldAt fns f).isEmpty = true
+      · cases g with
+        | none => simpa [he] using (⟨a.1, hi.w, hi.kw⟩ : NOwn c h P { n with st := s })
+        | some g => simpa [he, NSt.setTok] using (⟨a.1, hi.w.set g tks a.2.1, hi.kw⟩ : NOwn c h P { n with w := setOv n.w g tks, st := s })
+      · cases g with
+        | none => simpa [he] using (⟨a.1, hi.w, hi.kw.set f ts a.2.2⟩ : NOwn c h P { n with kw := setOv n.kw f ts, st := s })
+        | some g => simpa [he, NSt.setTok] using
+            (⟨a.1, hi.w.set g tks a.2.1, hi.kw.set f ts a.2.2⟩ : NOwn c h P { n with w := setOv n.w g tks, kw := setOv n.kw f ts, st := s })
+  | .stmts f, n, n', _, hx, hi => by
+    simp only [execI] at hx
+    split at hx
+    · cases hx
+    · rename_i ts s hst
+      cases hx
+      have a := stmtsAll_own (h := h) (P := P) hnop (fieldAt fns f) _ ts s (hfns f) hi.st hst
+      by_cases he : (fieldAt fns f).isEmpty = true
+      · simpa [he] using (⟨a.1, hi.w, hi.kw⟩ : NOwn c h P { n with st := s })
+      · simpa [he] using (⟨a.1, hi.w, hi.kw.set f ts a.2⟩ : NOwn c h P { n with kw := setOv n.kw f ts, st := s })
+  | .each f pre post, n, n', hok, hx, hi => by
+    simp only [execI] at hx
+    have hok' : pre.all (fun w => w.1 == c.tWs) = true ∧ post.all (fun w => w.1 == c.tWs) = true := by
+      simpa [wsOKI] using hok
+    split at hx
+    · cases hx
+    · rename_i ts s hac
+      cases hx
+      have a := acceptAll_own (h := h) (P := P) pre post hok'.1 hok'.2 (fieldAt fns f) _ ts s (hfns f) hi.st hac
+      by_cases he : (fieldAt fns f).isEmpty = true
+      · simpa [he] using (⟨a.1, hi.w, hi.kw⟩ : NOwn c h P { n with st := s })
+      · simpa [he] using (⟨a.1, hi.w, hi.kw.set f ts a.2⟩ : NOwn c h P { n with kw := setOv n.kw f ts, st := s })
+  | .sepLoop f g pre id lit post, n, n', hok, hx, hi => by
+    simp only [execI] at hx
+    have hok' : pre.all (fun w => w.1 == c.tWs) = true ∧ post.all (fun w => w.1 == c.tWs) = true := by
+      simpa [wsOKI] using hok
+    split at hx
+    · cases hx
+    · split at hx
+      · cases hx
+      · rename_i ts tks s hsep
+        cases hx
+        have a := sepAll_own (h := h) (P := P) pre post id lit hok'.1 hok'.2 (fieldAt fns f) _ ts tks s (hfns f) hi.st hsep
+        exact ⟨a.1, by simpa [NSt.setTok] using hi.w.set g tks a.2.1, hi.kw.set f ts a.2.2⟩
+  | .haltTail f id, n, n', hok, hx, hi => by
+    simp only [execI] at hx
+    have hid : id = h := by simpa [wsOKI] using hok
+    subst hid
+    split at hx
+    · rename_i t rest _
+      cases hx
+      exact ⟨hi.st, by simpa [NSt.setTok] using hi.w.set f _ (by intro x hx; simp at hx; subst hx; exact keepTok_own _ _ (haltFF_own c id t.ff)), hi.kw⟩
+    · cases hx; exact hi
+  | .ite cd a b, n, n', hok, hx, hi => by
+    simp only [execI] at hx
+    have hok' : wsOKIs c h a = true ∧ wsOKIs c h b = true := by simpa [wsOKI] using hok
+    split at hx
+    · exact execIs_own a n n' hok'.1 hx hi
+    · exact execIs_own b n n' hok'.2 hx hi
+theorem execIs_own : ∀ (is : List FI) (n n' : NSt), wsOKIs c h is = true → execIs c orig vals nn fns is n = some n' →
+    NOwn c h P n → NOwn c h P n'
+  | [], n, n', _, hx, hi => by simp only [execIs] at hx; cases hx; exact hi
+  | i :: r, n, n', hok, hx, hi => by
+    simp only [execIs] at hx
+    have hok' : wsOKI c h i = true ∧ wsOKIs c h r = true := by simpa [wsOKIs] using hok
+    split at hx
+    · cases hx
+    · rename_i n1 h1
+      exact execIs_own r n1 n' hok'.2 hx (execI_own i n n1 hok'.1 h1 hi)
+end
+end ownExec
+
+end PhpVerif.Fmt
+
+namespace PhpVerif.Fmt
+open PhpVerif
+
+mutual
+/-- every token in a field its kind's method writes carries only trivia the formatter made; likewise the
+    children in the fields it formats -/
+def OwnTree (c : FCfg) (h : Nat) (dT dK : Nat → List Nat) : Tree → Prop
+  | .mk k _ _ toks _ kids _ =>
+    (∀ f ∈ dT k, ∀ t ∈ fieldAt toks f, OwnTok c h t) ∧ ownSlots c h dT dK (dK k) 0 kids
+def ownSlots (c : FCfg) (h : Nat) (dT dK : Nat → List Nat) (d : List Nat) : Nat → List (List Tree) → Prop
+  | _, [] => True
+  | i, f :: fs => (d.contains i = true → ownForest c h dT dK f) ∧ ownSlots c h dT dK d (i + 1) fs
+def ownForest (c : FCfg) (h : Nat) (dT dK : Nat → List Nat) : List Tree → Prop
+  | [] => True
+  | t :: ts => OwnTree c h dT dK t ∧ ownForest c h dT dK ts
+end
+
+theorem ownForest_of_mem {c h dT dK} : ∀ (ts : List Tree), (∀ t ∈ ts, OwnTree c h dT dK t) → ownForest c h dT dK ts
+  | [], _ => trivial
+  | t :: ts, hh => ⟨hh t (List.mem_cons_self), ownForest_of_mem ts (fun x hx => hh x (List.mem_cons_of_mem _ hx))⟩
+
+theorem ownSlots_of_field {c h dT dK} (d : List Nat) : ∀ (kids : List (List Tree)) (i : Nat),
+    (∀ f, d.contains (i + f) = true → ownForest c h dT dK (fieldAt kids f)) → ownSlots c h dT dK d i kids
+  | [], _, _ => trivial
+  | x :: xs, i, hh => by
+    refine ⟨?_, ?_⟩
+    · intro hc; simpa [fieldAt] using hh 0 (by simpa using hc)
+    · apply ownSlots_of_field d xs (i + 1)
+      intro f hf
+      have e : i + 1 + f = i + (f + 1) := by omega
+      rw [e] at hf
+      simpa [fieldAt] using hh (f + 1) hf
+
+theorem mergeToks_field : ∀ (orig : List (List Tok)) (w : List (Option (List Tok))) (f : Nat) (t : Tok),
+    t ∈ fieldAt (mergeToks orig w) f → (∃ l, getOv w f = some l ∧ t ∈ l) ∨ (getOv w f = none ∧ t ∈ (fieldAt orig f).map bareTok)
+  | [], _, f, t, hh => by simp [mergeToks, fieldAt] at hh
+  | o :: r, [], f, t, hh => by
+    cases f with
+    | zero => right; simpa [mergeToks, fieldAt, getOv] using hh
+    | succ f =>
+      have := mergeToks_field r [] f t (by simpa [mergeToks, fieldAt] using hh)
+      simpa [getOv, fieldAt] using this
+  | o :: r, none :: w, f, t, hh => by
+    cases f with
+    | zero => right; simpa [mergeToks, fieldAt, getOv] using hh
+    | succ f =>
+      have := mergeToks_field r w f t (by simpa [mergeToks, fieldAt] using hh)
+      simpa [getOv, fieldAt] using this
+  | o :: r, some l :: w, f, t, hh => by
+    cases f with
+    | zero => left; exact ⟨l, by simp [getOv], by simpa [mergeToks, fieldAt] using hh⟩
+    | succ f =>
+      have := mergeToks_field r w f t (by simpa [mergeToks, fieldAt] using hh)
+      simpa [getOv, fieldAt] using this
+
+theorem mergeKids_field : ∀ (orig : List (List Tree)) (w : List (Option (List Tree))) (f : Nat),
+    (∃ l, getOv w f = some l ∧ fieldAt (mergeKids orig w) f = l) ∨ fieldAt (mergeKids orig w) f = [] ∨
+      (getOv w f = none ∧ fieldAt (mergeKids orig w) f = fieldAt orig f)
+  | [], _, f => by right; left; simp [mergeKids, fieldAt]
+  | o :: r, [], f => by
+    cases f with
+    | zero => right; right; simp [mergeKids, fieldAt, getOv]
+    | succ f =>
+      have := mergeKids_field r [] f
+      simpa [getOv, fieldAt, mergeKids] using this
+  | o :: r, none :: w, f => by
+    cases f with
+    | zero => right; right; simp [mergeKids, fieldAt, getOv]
+    | succ f =>
+      have := mergeKids_field r w f
+      simpa [getOv, fieldAt, mergeKids] using this
+  | o :: r, some l :: w, f => by
+    cases f with
+    | zero => left; exact ⟨l, by simp [getOv], by simp [mergeKids, fieldAt]⟩
+    | succ f =>
+      have := mergeKids_field r w f
+      simpa [getOv, fieldAt, mergeKids] using this
+
+section ownTree
+variable (c : FCfg) (h : Nat) (dT dK : Nat → List Nat)
+variable (hT : ∀ k f, f ∈ dT k → f ∈ daIs (c.prog k))
+variable (hK : ∀ k f, f ∈ dK k → f ∈ dakIs (c.prog k))
+variable (hws : ∀ k, wsOKIs c h (c.prog k) = true)
+variable (hnop : OwnTree c h dT dK (nopNode c))
+include hT hK hws hnop
+
+mutual
+theorem fmtTree_own : ∀ t : Tree, FnOwn c h (OwnTree c h dT dK) (fmtTree c t)
+  | .mk k u p toks vals kids nn => by
+    intro s t' s' hs hx
+    simp only [fmtTree] at hx
+    split at hx
+    · cases hx
+    · rename_i n hex
+      cases hx
+      have hfns := fmtSlots_own kids
+      have hn := execIs_own c h (OwnTree c h dT dK) toks vals nn (fmtSlots c kids) hfns hnop (c.prog k) _ n (hws k) hex
+        ⟨hs, by intro f l hf; simp [getOv] at hf, by intro f l hf; simp [getOv] at hf⟩
+      have eff := execIs_eff c toks vals nn (fmtSlots c kids) (c.prog k) _ n hex
+      refine ⟨hn.st, ?_, ?_⟩
+      · intro f hf t ht
+        cases mergeToks_field toks n.w f t ht with
+        | inl x => obtain ⟨l, hl, hm⟩ := x; exact hn.w f l hl t hm
+        | inr x =>
+          cases eff.dt f (hT k f hf) with
+          | inl y => rw [x.1] at y; cases y
+          | inr y => rw [y] at x; simp at x
+      · apply ownSlots_of_field
+        intro f hf
+        have hf' : f ∈ dK k := by simpa using hf
+        cases mergeKids_field kids n.kw f with
+        | inl x => obtain ⟨l, hl, hm⟩ := x; rw [hm]; exact ownForest_of_mem l (hn.kw f l hl)
+        | inr x =>
+          cases x with
+          | inl y => rw [y]; trivial
+          | inr y =>
+            cases eff.dk f (hK k f hf') with
+            | inl z => rw [y.1] at z; cases z
+            | inr z =>
+              rw [y.2]
+              have : fieldAt kids f = [] := by
+                rw [fmtSlots_field] at z
+                exact (fmtForest_eq_nil c _).mp z
+              rw [this]; trivial
+theorem fmtSlots_own : ∀ (kids : List (List Tree)) (f : Nat), ∀ kf ∈ fieldAt (fmtSlots c kids) f, FnOwn c h (OwnTree c h dT dK) kf.2
+  | [], f => by intro kf hkf; simp [fmtSlots, fieldAt] at hkf
+  | x :: xs, f => by
+    intro kf hkf
+    cases f with
+    | zero => exact fmtForest_own x kf (by simpa [fmtSlots, fieldAt] using hkf)
+    | succ f => exact fmtSlots_own xs f kf (by simpa [fmtSlots, fieldAt] using hkf)
+theorem fmtForest_own : ∀ (ts : List Tree), ∀ kf ∈ fmtForest c ts, FnOwn c h (OwnTree c h dT dK) kf.2
+  | [] => by intro kf hkf; simp [fmtForest] at hkf
+  | t :: ts => by
+    intro kf hkf
+    simp only [fmtForest, List.mem_cons] at hkf
+    cases hkf with
+    | inl e => rw [e]; exact fmtTree_own t
+    | inr e => exact fmtForest_own ts kf e
+end
+end ownTree
+
+end PhpVerif.Fmt
